@@ -527,6 +527,7 @@ func main() {
 	translateLoops(*repo, writeImp)
 	translateElements(*repo, writeImp)
 	translateMsmChunk(*repo, writeImp)
+	translateSerde(*repo, writeImp)
 	fmt.Println("extract: ok")
 }
 
